@@ -2184,7 +2184,7 @@ hwloc_linux_get_area_membind(hwloc_topology_t topology, const void *addr, size_t
   if (!linuxmask || !globallinuxmask)
     goto out_with_linuxmasks;
 
-  memset(globallinuxmask, 0, sizeof(*globallinuxmask));
+  memset(globallinuxmask, 0, max_os_index/HWLOC_BITS_PER_LONG * sizeof(*globallinuxmask));
 
   for(tmpaddr = (char *)((unsigned long)addr & ~(pagesize-1));
       tmpaddr < (char *)addr + len;
